@@ -15,6 +15,7 @@ OPEN_CONFIGS = [
     ("stR-TD", "stR", {"time_dependent": True}),
     ("stR-TD-sec", "stR", {"time_dependent": True, "secular_relaxation": True}),
     ("stR-TD-cut", "stR", {"time_dependent": True, "relaxation_cutoff_time": "CUT"}),
+    ("stR-TD-ops", "stR", {"time_dependent": True, "as_operators": True}),
     ("stF", "stF", {}),
     ("stF-TD", "stF", {"time_dependent": True}),
     ("cRF", "cRF", {"coupling_cutoff": "JCUT"}),
@@ -33,6 +34,8 @@ DIRECT_CONFIGS = [
     ("Lindblad-tensor", {"as_operators": False}),
     ("Lindblad-open", {}),
     ("Lindblad-open-sec", {"secular_relaxation": True}),
+    ("eLindblad-vib-tensor", {"as_operators": False}),
+    ("eLindblad-vib-ops", {"as_operators": True}),
 ]
 ALL_LABELS = [c[0] for c in OPEN_CONFIGS] + [c[0] for c in DIRECT_CONFIGS]
 
@@ -64,6 +67,21 @@ def gen_case(rng, label, tier="quick", nmax=None):
         c["jcut_cm"] = r3(jc)
     if "cut" in label:
         c["cut_time"] = r3(rng.uniform(0.3, 0.8) * Nt * s["dt"])
+    if label.startswith("eLindblad"):
+        # vibronic aggregate with purely electronic Lindblad operators (projectors between sites)
+        N = int(rng.integers(2, 4 if tier == "thorough" else 3))
+        s["N"] = N
+        s["E"] = s["E"][:N] if len(s["E"]) >= N else s["E"] + [s["E"][0] + 100.0] * (N - len(s["E"]))
+        s["J"] = [[(float(rng.uniform(20, 200)) if a != b else 0.0) for b in range(N)] for a in range(N)]
+        s["J"] = [[s["J"][min(a, b)][max(a, b)] for b in range(N)] for a in range(N)]
+        s["bath"] = s["bath"][:1] * N
+        c["modes"] = [{"omega": r3(rng.uniform(100, 600)), "hr": r3(rng.uniform(0.05, 1.0)), "n0": int(rng.integers(1, 3)), "n1": int(rng.integers(1, 3))} for _ in range(N)]
+        pairs = [(a, b) for a in range(1, N + 1) for b in range(1, N + 1) if a != b]
+        k = int(rng.integers(1, len(pairs) + 1))
+        sel = [pairs[i] for i in rng.permutation(len(pairs))[:k]]
+        c["eproj"] = [[int(a), int(b)] for a, b in sel]
+        c["lrates"] = [0.0 if rng.random() < 0.1 else r3(1.0 / rng.uniform(30, 500)) for _ in sel]
+        return c
     if label.startswith("Lindblad"):
         dim = N + 1
         nops = int(rng.integers(1, 4))
@@ -94,6 +112,31 @@ def build_case(case):
     import quantarhei as qr
     from quantarhei import qm
     label = case["label"]
+    if label.startswith("eLindblad"):
+        desc = case["sys"]
+        N = desc["N"]
+        with qr.energy_units("1/cm"):
+            mols = [qr.Molecule([0.0, float(desc["E"][i])]) for i in range(N)]
+            for m, md_ in zip(mols, case["modes"]):
+                md = qr.Mode(md_["omega"])
+                m.add_Mode(md)
+                md.set_nmax(0, md_["n0"])
+                md.set_nmax(1, md_["n1"])
+                md.set_HR(1, md_["hr"])
+            vagg = qr.Aggregate(molecules=mols)
+            J = numpy.array(desc["J"], dtype=float)
+            for a in range(N):
+                for b in range(a + 1, N):
+                    vagg.set_resonance_coupling(a, b, float(J[a, b]))
+        vagg.build()
+        vham = vagg.get_Hamiltonian()
+        ops = [qm.ProjectionOperator(a, b, dim=N + 1) for (a, b) in case["eproj"]]
+        vsbi = qm.SystemBathInteraction(ops, rates=[float(x) for x in case["lrates"]])
+        vsbi.set_system(vagg)
+        kw = dict([c for c in DIRECT_CONFIGS if c[0] == label][0][1])
+        with contextlib.redirect_stdout(io.StringIO()):
+            R = qm.ElectronicLindbladForm(vham, vsbi, **kw)
+        return {"agg": vagg, "t": build.timeaxis(desc), "cfs": [], "ham": vham, "hamR": vham, "sbi": vsbi, "R": R, "route": "direct", "kwargs": kw}
     agg, t, cfs = build.make_aggregate(case["sys"])
     ham = agg.get_Hamiltonian()
     out = {"agg": agg, "t": t, "cfs": cfs, "ham": ham}
